@@ -702,9 +702,15 @@ func (s *spyStore) call(ctx context.Context, method, sid string, fn func() error
 			ev.Err = errors.New("sim: injected store failure (before effect)")
 			break
 		}
-		m.SetError("sim: redis is down")
+		// (every data command is refused the way a server out of memory refuses it; MULTI itself is answered +OK and
+		// the transaction aborts at EXEC. An error for MULTI - what miniredis' SetError gives - makes go-redis
+		// abandon the pipeline with replies still on their way: whether it notices them when it puts the
+		// connection back depends on real time, and a connection that went back "clean" is one reply behind
+		// from then on.)
+		var n, failed atomic.Int64
+		m.Server().SetPreHook(oomHook(m.Server(), 1, &n, &failed))
 		ev.Err = fn()
-		m.SetError("")
+		m.Server().SetPreHook(nil)
 		ev.Applied = true
 	case ev.Fault == "ctx-cancel":
 		if ev.Check != nil {
@@ -1584,13 +1590,13 @@ func oomHook(srv *redisserver.Server, k int, n, failed *atomic.Int64) redisserve
 		case "HELLO", "CLIENT", "AUTH", "SELECT", "PING":
 			return false
 		}
+		if cmd == "MULTI" {
+			inMulti[c] = true // never refused and not counted: a server that refuses writes still opens transactions
+			return false
+		}
 		failing := n.Add(1) >= int64(k)
 		tx := inMulti[c]
 		switch cmd {
-		case "MULTI":
-			if !failing {
-				inMulti[c] = true
-			}
 		case "EXEC", "DISCARD":
 			delete(inMulti, c)
 		}
